@@ -17,7 +17,7 @@ RULE = ('case = wallet (strategy, fee rate, 3..40 UTXOs, 1-2 accounts) + a round
 ASSUMPTIONS = ['interleavings are produced only at existing suspension points (around AIOSQLite.run); the single sqlite writer thread is real',
                'broadcast is simulated by saving the transaction I/O through the real save_transaction_io (inputs become spent)']
 REQUIRED_HITS = ['D4.failed_after_reserving', 'D1.pairs_checked', 'D2.checked', 'D3.checked', 'D4.failed_builds', 'round.some_failed_some_succeeded',
-                 'resync.during_builds', 'resync.while_held', 'phase2.late_build', 'phase3.release', 'phase3.broadcast', 'phase3.build_in_between', 'chaos.points']
+                 'resync.during_builds', 'resync.while_held', 'reconnect.while_held', 'build.without_outputs', 'pool.has_barely_spendable_coins', 'phase2.late_build', 'phase3.release', 'phase3.broadcast', 'phase3.build_in_between', 'chaos.points']
 
 
 class InjectedFault(Exception):
@@ -59,6 +59,13 @@ async def _round(rec, case):
         spend = 148 * rate
         nutxo = r.randrange(3, 40)
         amounts = [r.randrange(spend * 3, spend * 3 + 10 ** r.randrange(4, 10)) for _ in range(nutxo)]
+        if r.random() < 0.35:
+            # a few coins worth little more than their own spend fee: a build without outputs that draws one has to come back for more
+            # inputs in a second pass of Transaction.create's funding loop (seeded break C14-E leaked the first pass's reservation when
+            # the second pass found nothing because concurrent builds held the rest)
+            amounts += [spend + r.randrange(1, 56 * rate + 1000) for _ in range(r.randrange(1, 5))]
+            r.shuffle(amounts)
+            rec.hit('pool.has_barely_spendable_coins')
         funded = [await fx.fund([(r.randrange(nacc), r.choice([0, 1]), r.randrange(20), a) for a in amounts], height=10)]
         if r.random() < 0.4:
             funded.append(await fx.fund([(r.randrange(nacc), 0, r.randrange(20), a) for a in amounts[:3]], height=0, is_verified=False))
@@ -101,7 +108,12 @@ async def _round(rec, case):
         async def build(name, amount):
             ev(name, 'call', amount)
             try:
-                tx = await Transaction.pay(amount, ledger.hash160_to_address(r.randbytes(20)), accounts, accounts[0])
+                if amount == 0:
+                    # a build with no outputs of its own (what abandon / consolidate do): the library adds inputs until a change output fits
+                    rec.hit('build.without_outputs')
+                    tx = await Transaction.create([], [], accounts, accounts[0])
+                else:
+                    tx = await Transaction.pay(amount, ledger.hash160_to_address(r.randbytes(20)), accounts, accounts[0])
             except InsufficientFundsError:
                 ev(name, 'refused')
                 return None
@@ -118,6 +130,8 @@ async def _round(rec, case):
         tasks = []
         for i in range(nb):
             amt = max(1, int(total * share * r.uniform(0.5, 1.2)))
+            if r.random() < 0.2:
+                amt = 0
             tasks.append(asyncio.get_running_loop().create_task(build(f'b{i}', amt), name=f'b{i}'))
         syncer = asyncio.get_running_loop().create_task(resync('during_builds'), name='sync') if r.random() < 0.5 else None
         results = await asyncio.gather(*tasks, return_exceptions=True)
@@ -125,6 +139,11 @@ async def _round(rec, case):
             await syncer
         if r.random() < 0.6:
             await resync('while_held')
+        if r.random() < 0.4:
+            # the wallet server connection drops and comes back while transactions are held: Ledger.join_network is the on_connected
+            # listener (seeded break C14-F moved the start-up release_all_outputs() into it)
+            await ledger.join_network()
+            rec.hit('reconnect.while_held')
         for i, res in enumerate(results):
             if isinstance(res, BaseException):
                 import traceback
